@@ -17,6 +17,8 @@ Values (powers, fluxes, volumes, symmetry factors) are symbolic reals; the SHAPE
 multigroup flux), reactionRates (volume integrated list), an unset volume-integrated parameter, a label (str), and
 non-volume-integrated bystanders}.
 """
+import numpy as np
+
 from spec import *
 
 ThirdCoreHexToFullCoreChanger = repo("armi.reactor.converters.geometryConverters:ThirdCoreHexToFullCoreChanger")
@@ -89,7 +91,7 @@ def block(power, f1, f2, g1, g2, r1, r2, flux, temperature, volume, factor, defs
     return new(BlockStub, p=p, volume=volume, symmetryFactor=factor)
 
 
-GENV = {"power": (0.0, 1e6), "f1": (0.0, 1e14), "f2": (0.0, 1e14), "g1": (0.0, 10.0), "g2": (0.0, 10.0), "r1": (0.0, 5.0), "r2": (0.0, 5.0),
+GENV = {"power": (-1e6, 1e6), "f1": (0.0, 1e14), "f2": (0.0, 1e14), "g1": (-10.0, 10.0), "g2": (-10.0, 10.0), "r1": (-5.0, 5.0), "r2": (-5.0, 5.0),
         "flux": (0.0, 1e12), "temperature": (300.0, 900.0), "s1": [1.0, 2.0, 3.0], "s2": [1.0, 2.0, 3.0], "v": (1.0, 500.0), "vs": (1.0, 500.0)}
 
 
@@ -248,3 +250,40 @@ def edge_scaling_pairs_the_blocks_of_the_two_symmetry_lines(x0: float, x1: float
     if nb == 2:
         assert eq(lows[1].p.power, x1 + y1) and eq(ups[1].p.power, y1)
     assert eq(lows[0].p.temperature, temperature) and eq(lows[0].p.flux, 1.0)
+
+
+# ----------------------------------------------------------------------------- the same on numpy-array values
+@lemma(gen=dict(GENV, h1=(0.0, 1e14), h2=(0.0, 1e14), q1=(-5.0, 5.0), q2=(-5.0, 5.0)))
+def array_valued_parameters_are_scaled_element_by_element(f1: float, f2: float, h1: float, h2: float, r1: float, r2: float, q1: float, q2: float, s1: float, s2: float,
+                                                          v: float, vs: float):
+    """The lemmas above hold the multigroup values as python LISTS.  A reactor loaded from a database or written by a
+    physics kernel holds them as numpy ARRAYS (the code branches on `type(x) is list` / `isinstance(x, Iterable)`): the
+    same statements - x3 and back, whole-hexagon value conserved under a symmetry-factor change, two halves summed
+    group by group (never concatenated, never broadcast into a different length) - for array values."""
+    assume(s1 > 0 and s2 > 0 and v > 0 and vs > 0)
+    defs = blockdefs()
+    ch = new(ThirdCoreHexToFullCoreChanger, listOfVolIntegratedParamsToScale=["mgFlux", "reactionRates"])
+    b = block(1.0, 0.0, 0.0, 0.0, 0.0, 0.0, 0.0, 0.0, 300.0, v, s2, defs)
+    b.p.mgFlux, b.p.reactionRates = np.array([f1, f2]), np.array([r1, r2])
+    ch._scaleBlockVolIntegratedParams(b, "up")
+    assert len(b.p.mgFlux) == 2 and eq(b.p.mgFlux[0], 3 * f1) and eq(b.p.mgFlux[1], 3 * f2), "x3 element by element"
+    assert len(b.p.reactionRates) == 2 and eq(b.p.reactionRates[0], 3 * r1) and eq(b.p.reactionRates[1], 3 * r2)
+    ch._scaleBlockVolIntegratedParams(b, "down")
+    assert len(b.p.mgFlux) == 2 and eq(b.p.mgFlux[0], f1) and eq(b.p.mgFlux[1], f2) and eq(b.p.reactionRates[0], r1) and eq(b.p.reactionRates[1], r2), "restored"
+    # symmetry factor s1 -> s2
+    a = new(Assembly, _children=[b], name="A0001")
+    a.scaleParamsToNewSymmetryFactor(s1)
+    assert len(b.p.mgFlux) == 2 and eq(b.p.mgFlux[0] * s2, f1 * s1) and eq(b.p.mgFlux[1] * s2, f2 * s1), "whole-hexagon value conserved"
+    assert len(b.p.reactionRates) == 2 and eq(b.p.reactionRates[1] * s2, r2 * s1)
+    # two halves
+    e = block(1.0, 0.0, 0.0, 0.0, 0.0, 0.0, 0.0, 5.0, 300.0, v, 2.0, defs)
+    t = block(1.0, 0.0, 0.0, 0.0, 0.0, 0.0, 0.0, 5.0, 300.0, vs, 2.0, defs)
+    e.p.mgFlux, e.p.reactionRates = np.array([f1, f2]), np.array([r1, r2])
+    t.p.mgFlux, t.p.reactionRates = np.array([h1, h2]), np.array([q1, q2])
+    gc._scaleParamsInBlock(e, t, (["mgFlux", "reactionRates"], ["mgFlux", "adjMgFlux"]))
+    if f1 != 0 or f2 != 0:
+        assert len(e.p.mgFlux) == 2 and eq(e.p.mgFlux[0], f1 + h1) and eq(e.p.mgFlux[1], f2 + h2), "group-wise sum"
+        assert eq(e.p.flux * (v + vs), f1 + h1 + f2 + h2)
+    if r1 != 0 or r2 != 0:
+        assert len(e.p.reactionRates) == 2 and eq(e.p.reactionRates[0], r1 + q1) and eq(e.p.reactionRates[1], r2 + q2), "array halves are summed, not concatenated"
+    assert eq(t.p.mgFlux[0], h1) and eq(t.p.reactionRates[1], q2), "the twin is untouched"
